@@ -37,6 +37,7 @@ class Ctx:
 
     def build(self):
         if not self.wire:
+            core.trim_build_cache()
             self.wire = core.build_wire(self.sc)
         return self.wire
 
